@@ -222,7 +222,33 @@ func (p *Path) StrLen(s Str) *smt.Term {
 	if c, ok := p.fmtConcrete(s); ok {
 		return i64(int64(len(c)))
 	}
-	panic(unsupported("len of formatted symbolic string"))
+	// literal characters plus the decimal digits of every argument
+	lit := strings.ReplaceAll(strings.ReplaceAll(s.Fmt, "%%", "\x00"), "%d", "")
+	if strings.Contains(lit, "%") {
+		panic(unsupported("len of formatted symbolic string " + s.Fmt))
+	}
+	n := i64(int64(len(lit)))
+	for _, a := range s.Args {
+		n = smt.BVAdd(n, i64(1))
+		lim := uint64(10)
+		for d := 0; d < 19; d++ {
+			if a.S.W < 64 && lim >= 1<<uint(a.S.W) {
+				break
+			}
+			n = smt.BVAdd(n, smt.Ite(smt.BVUle(smt.BVU(lim, a.S.W), a), i64(1), i64(0)))
+			lim *= 10
+		}
+	}
+	return n
+}
+
+// fmtPrefix is the literal prefix of a formatted string.
+func fmtPrefix(s Str) string {
+	i := strings.Index(s.Fmt, "%")
+	if i < 0 {
+		return s.Fmt
+	}
+	return s.Fmt[:i]
 }
 
 func (p *Path) fmtConcrete(s Str) (string, bool) {
@@ -340,6 +366,22 @@ func (p *Path) strIndex(in ssa.Instruction, s Str, idx *smt.Term) Val {
 	}
 	if c, ok := p.fmtConcrete(s); ok {
 		return p.strIndex(in, Str{S: c}, idx)
+	}
+	if k, ok := idx.Uint64(); ok {
+		if pre := fmtPrefix(s); k < uint64(len(pre)) {
+			return smt.BVU(uint64(pre[k]), 8)
+		}
+	}
+	if strings.Count(s.Fmt, "%") == 1 && strings.HasSuffix(s.Fmt, "%d") {
+		// a decimal digit of the argument
+		b := p.Fresh("digit", smt.BV(8))
+		p.Assume(smt.And(smt.BVUle(smt.BVU('0', 8), b), smt.BVUle(b, smt.BVU('9', 8))))
+		pre := fmtPrefix(s)
+		r := b
+		for k := len(pre) - 1; k >= 0; k-- {
+			r = smt.Ite(smt.Eq(idx, i64(int64(k))), smt.BVU(uint64(pre[k]), 8), r)
+		}
+		return r
 	}
 	panic(unsupported("index of formatted symbolic string"))
 }
